@@ -14,6 +14,7 @@ struct State {
     taken: Vec<u8>,
     parked_unwinding: Vec<bool>,
     overlap_events: u64,
+    hook_parks: u64,
 }
 
 pub struct Sched {
@@ -32,6 +33,7 @@ impl Sched {
                 taken: Vec::new(),
                 parked_unwinding: vec![false; n],
                 overlap_events: 0,
+                hook_parks: 0,
             }),
             cv: Condvar::new(),
         }
@@ -83,6 +85,15 @@ impl Sched {
         st2.parked_unwinding[tid] = false;
     }
 
+    /// Scheduler point inside the panic hook of thread `tid`.
+    pub fn hook_point(&self, tid: usize) {
+        {
+            let mut st = self.lock();
+            st.hook_parks += 1;
+        }
+        self.yield_point(tid, true);
+    }
+
     pub fn finish(&self, tid: usize) {
         let mut st = self.lock();
         st.live[tid] = false;
@@ -99,8 +110,8 @@ impl Sched {
         }
     }
 
-    pub fn report(&self) -> (Vec<u8>, u64) {
+    pub fn report(&self) -> (Vec<u8>, u64, u64) {
         let st = self.lock();
-        (st.taken.clone(), st.overlap_events)
+        (st.taken.clone(), st.overlap_events, st.hook_parks)
     }
 }
